@@ -69,6 +69,12 @@ def run(ctx):
         rng.shuffle(idi)
         idi = idi[:500]
     cases += idi
+    hmi = gen_mod.hashmap_idioms(L, tab)
+    if quick:
+        rng.shuffle(hmi)
+        hmi = hmi[:90]
+    cases += hmi
+    ctx.cov["hashmap_idiom_programs"] = len(hmi)
     ctx.cov["idiom_programs"] = len(idi)
     ctx.cov["programs"] = len(cases)
 
